@@ -20,8 +20,11 @@ class Module:
 
 
 class DType:
-    def __init__(self, name):
+    def __init__(self, name, coordinate=False):
         self.name = name
+        # the coordinate subtype of a geometry array (float64 in the model; float32 / int64 / int32 / int16 in
+        # general): creating arrays of it is fine, CASTING existing values to it is outside the model
+        self.coordinate = coordinate
 
     @property
     def elem(self):
@@ -75,7 +78,7 @@ def get_attribute(eng, s, fr, obj, attr, lineno):
                 n = n * d
             return n
         if attr == 'dtype':
-            return DType(obj.base.dtype)
+            return DType(obj.base.dtype, coordinate=bool(obj.base.meta.get('coordinate_dtype')))
         return BoundMethod(obj, attr)
     if isinstance(obj, SList):
         return BoundMethod(obj, attr)
@@ -135,6 +138,8 @@ def call(eng, s, fr, node):
     kwargs = {k.arg: eng.eval(k.value, s, fr) for k in node.keywords}
     if isinstance(fv, DType):
         # np.uint32(x) style casts of scalars
+        if fv.coordinate:
+            raise Unsupported("value cast to the array's coordinate subtype (the model fixes it to float64)")
         if len(args) == 1 and isinstance(args[0], (SInt, SFloat, SBool)):
             if fv.elem == 'float':
                 return to_float(args[0])
@@ -328,6 +333,10 @@ def call_builtin(eng, s, fr, name, args, kwargs, lineno, node):
         return np_array(eng, s, fr, args, kwargs, lineno)
     if name in ('np.asarray',):
         if isinstance(args[0], SArr):
+            dt = args[1] if len(args) > 1 else kwargs.get('dtype')
+            if dt is not None and not isinstance(dt, SNone):
+                if getattr(dt, 'coordinate', False) or _dtype_of(dt).dtype != args[0].base.dtype:
+                    raise Unsupported("np.asarray of an array with a different / coordinate dtype")
             return args[0]
         return np_array(eng, s, fr, args, kwargs, lineno)
     if name == 'np.nonzero':
@@ -632,6 +641,8 @@ def np_array(eng, s, fr, args, kwargs, lineno):
             d = DType('float64') if any(isinstance(x, SFloat) for x in items) else DType('int64')
         else:
             d = _dtype_of(dt)
+            if getattr(dt, 'coordinate', False) and items:
+                raise Unsupported("values cast to the array's coordinate subtype (the model fixes it to float64)")
         arr = st.new_conc_array(s, d.elem, d.dtype, [len(items)], None)
         cells = []
         for x in items:
@@ -666,6 +677,8 @@ def new_lambda_array2(s, elem, dtype, r, c, fn, name='lam2'):
 
 def array_astype(eng, s, fr, arr, dt):
     snap = _Snap(dict(s.heap))   # operands are read as they are NOW (numpy evaluates eagerly)
+    if getattr(dt, 'coordinate', False):
+        raise Unsupported("astype to the array's coordinate subtype (the model fixes it to float64)")
     d = _dtype_of(dt)
     if arr.ndim != 1:
         raise Unsupported("astype of n-d array")
